@@ -28,10 +28,11 @@ def R(n, d=1):
 
 
 ALPHA = {
-    "SUM": [{"v": R(1), "t": R(0)}, {"v": R(3, 2), "t": R(0)}, {"v": R(5), "t": R(0)}],
-    "RATIO": [{"v": R(1), "t": R(2)}, {"v": R(3), "t": R(4)}, {"v": R(0), "t": R(2)}],
+    # the first two of each are used: a zero observation (a falsy value that is a valid observation) and a non-integer
+    "SUM": [{"v": R(0), "t": R(0)}, {"v": R(3, 2), "t": R(0)}, {"v": R(5), "t": R(0)}],
+    "RATIO": [{"v": R(1), "t": R(2)}, {"v": R(0), "t": R(2)}, {"v": R(3), "t": R(4)}],
     "CHOICE": [{"v": R(0), "t": R(0)}, {"v": R(2), "t": R(0)}, {"v": R(1), "t": R(0)}],
-    "MISC": [{"v": R(1), "t": R(0)}, {"v": R(7, 2), "t": R(0)}, {"v": R(5), "t": R(0)}],
+    "MISC": [{"v": R(0), "t": R(0)}, {"v": R(7, 2), "t": R(0)}, {"v": R(5), "t": R(0)}],
 }
 
 
@@ -68,10 +69,28 @@ def type_code(typ):
 
 
 def eq(a, b):
-    return abs(float(a) - float(b)) <= 1e-12 * max(1.0, abs(float(b)))
+    try:
+        return abs(float(a) - float(b)) <= 1e-12 * max(1.0, abs(float(b)))
+    except (TypeError, ValueError):       # e.g. the initial text of a MISC result where a number is due: unequal, not a harness error
+        return False
 
 
-def compare_result(r, exp, typ, acc):
+def flag_of(acc, form):
+    """the accumulate_values argument: the plain bool, or another value of the same truthiness"""
+    return ((True, np.True_, 1) if acc else (False, 0, np.False_))[form % 3]
+
+
+def lists_state(r, exp):
+    """(accumulated lists are what accumulation demands, accumulated lists are empty)"""
+    f = exp["f"]
+    d = r.to_dict() if hasattr(r, "to_dict") else r._to_dict()
+    vl = [float(fr(x)) for x in f["vlist"]]
+    tl = [float(fr(x)) for x in f["tlist"]]
+    return ([float(x) for x in d["value_list"]] == vl and [float(x) for x in d["total_list"]] == tl,
+            len(d["value_list"]) == 0 and len(d["total_list"]) == 0)
+
+
+def compare_result(r, exp, typ, acc, lists=True):
     """list of discrepancies between a real Result and TLC's Fold record"""
     bad = []
     f = exp["f"]
@@ -112,6 +131,8 @@ def compare_result(r, exp, typ, acc):
             bad.append(f"mean {r.get_result_mean()} != {fr(exp['st']['mean'])}")
         if not eq(r.get_result_var(), fr(exp["st"]["var"])):
             bad.append(f"var {r.get_result_var()} != {fr(exp['st']['var'])}")
+    if not lists:
+        return bad
     vl = [float(fr(x)) for x in f["vlist"]]
     tl = [float(fr(x)) for x in f["tlist"]]
     if [float(x) for x in d["value_list"]] != vl:
@@ -143,7 +164,11 @@ def run_path(job):
 
 
 def _run_path(job):
-    typ, acc, alpha, edges = job
+    typ, acc, alpha, edges = job[:4]
+    form = job[4] if len(job) > 4 else 0
+    flag = flag_of(acc, form)
+    # a truthy flag that is not `True` may be honoured or ignored, but the same way by every operation of the history
+    mode = None if (acc and form % 3) else ("acc" if acc else "noacc")
     from pyphysim.simulations.results import Result, SimulationResults
     tc = type_code(typ)
     sets = [SimulationResults() for _ in range(3)]
@@ -165,7 +190,7 @@ def _run_path(job):
                     pass
             elif op["op"] == "AddEmpty":
                 sets[s] = SimulationResults()
-                sets[s].add_result(Result(NAME, tc, accumulate_values=acc, choice_num=NCHOICE if typ == "CHOICE" else None))
+                sets[s].add_result(Result(NAME, tc, accumulate_values=flag, choice_num=NCHOICE if typ == "CHOICE" else None))
                 sets[s].add_result(Result(OTHER, Result.SUMTYPE))
             elif op["op"] in ("AddNew", "UpdateLast"):
                 ob = alpha[op["k"] - 1]
@@ -174,10 +199,10 @@ def _run_path(job):
                     sets[s] = SimulationResults()
                     sets[s].add_new_result(OTHER, Result.SUMTYPE, 10 ** (op["k"] - 1))
                     if typ == "CHOICE":
-                        r = Result.create(NAME, tc, int(v), NCHOICE, accumulate_values=acc)
+                        r = Result.create(NAME, tc, int(v), NCHOICE, accumulate_values=flag)
                         sets[s].add_result(r)
-                    elif acc:
-                        sets[s].add_result(Result.create(NAME, tc, v, t, accumulate_values=True))
+                    elif acc or form % 3:
+                        sets[s].add_result(Result.create(NAME, tc, v, t, accumulate_values=flag))
                     else:
                         sets[s].add_new_result(NAME, tc, v, t)
                 else:
@@ -212,7 +237,17 @@ def _run_path(job):
             oth = sets[si][OTHER] if OTHER in sets[si].get_result_names() else []
             ghost = e["post"]["sobs"][si]
             for p, ex_ in enumerate(exps):
-                bad = compare_result(have[p], ex_, typ, acc)
+                try:
+                    bad = compare_result(have[p], ex_, typ, acc, lists=(typ != "MISC" and mode is not None and form % 3 == 0))
+                except Exception as ex:         # noqa - a query of the result raised: a verdict about the code, not a harness error
+                    bad = [f"querying the result raised {type(ex).__name__}: {ex}"]
+                if typ != "MISC" and (mode is None or form % 3):
+                    acc_ok, empty_ok = lists_state(have[p], ex_)
+                    if mode is None and acc_ok != empty_ok:
+                        mode = "acc" if acc_ok else "noacc"
+                    if not (acc_ok if mode == "acc" else empty_ok if mode == "noacc" else (acc_ok or empty_ok)):
+                        bad.append(f"accumulate_values={flag!r}: the accumulated lists are neither those of an accumulating result nor "
+                                   f"empty the way the earlier operations of this history left them (mode {mode})")
                 want_o = sum(10 ** alpha.index(ob) for ob in ghost[p])
                 if len(oth) != len(exps) or oth[p].num_updates != len(ghost[p]) or (len(ghost[p]) and oth[p].get_result() != want_o):
                     bad.append(f"second result name holds {oth[p].get_result() if len(oth) == len(exps) else 'a list of other length'}, expected {want_o} "
@@ -235,13 +270,13 @@ def explore(ctx, typ, acc, nalpha, r):
     paths = g.transition_cover(root, max_len=10, rng=rng)
     paths += g.random_walks(root, 200 if ctx.tier == "quick" else 3000, 10, rng)
     alpha = ALPHA[typ][:nalpha]
-    jobs = [(typ, acc, alpha, g.path_edges(p)) for p in paths]
+    jobs = [(typ, acc, alpha, g.path_edges(p), k) for k, p in enumerate(paths)]
     res = pool_map(run_path, jobs, chunksize=max(1, len(jobs) // 64))
     for job, (okc, v) in zip(jobs, res):
         ctx.ok(n=okc)
         ctx.trace_done()
         if v:
-            case = {"type": typ, "acc": acc, "alpha": alpha, "path": job[3], "failing": v}
+            case = {"type": typ, "acc": acc, "alpha": alpha, "path": job[3], "form": job[4], "failing": v}
             if v["fid"]:
                 ctx.finding(v["fid"], v["what"], case)
             else:
@@ -301,7 +336,7 @@ def replay(ctx, data):
     if c.get("kind") == "combine":
         from . import c06_combine
         return c06_combine.replay(ctx, c)
-    okc, v = run_path((c["type"], c["acc"], c["alpha"], c["path"]))
+    okc, v = run_path((c["type"], c["acc"], c["alpha"], c["path"], c.get("form", 0)))
     ctx.ok(n=okc)
     if v:
         if v["fid"]:
